@@ -7,6 +7,7 @@ Property theorems, split over sub-modules (all in `namespace Retro.Props.C17`):
   Curve   – model = spec curve, spline tangent, smoothstep / smootherstep
   Approx  – `approximate`: termination, endpoints, increasing dyadic parameters, justification
   Lipschitz – each component of `eval` is 3·n·M-Lipschitz on [0,1], across joins
+  Rays – `from_rays`: accepted iff ≥ 2 rays, segments p, p+v, q−w, q, C¹ at the knots
   Continuity – over ℝ: every component of `eval` is a continuous function of t
 -/
 import Retro.Props.C17.Bezier
@@ -16,3 +17,4 @@ import Retro.Props.C17.Curve
 import Retro.Props.C17.Approx
 import Retro.Props.C17.Lipschitz
 import Retro.Props.C17.Continuity
+import Retro.Props.C17.Rays
